@@ -793,4 +793,297 @@ theorem replace_empty_s (x : AStr) (new : AStr.Repl) (hnew : ReplOk new) (R : St
   rw [find_empty, if_pos (Nat.zero_le _)]
   simpa using this
 
+/-! ## pieces: offset recovery by `find` -/
+
+theorem piecesAt_s (x : AStr) (offs : List (Nat × Nat)) :
+    (x.piecesAt offs).map (·.s) = offs.map (fun ol => (x.s.take (ol.1 + ol.2)).drop ol.1) := by
+  unfold AStr.piecesAt
+  rw [List.map_map]
+  apply List.map_congr_left
+  intro ol _
+  exact getSlice_nat_s x ol.1 (ol.1 + ol.2)
+
+/-- the pieces occur in `s` in this order, each at or after `idx` resp. `gap` behind the end of the
+    previous one -/
+def Occ (s : Str) (gap : Nat) : List Str → Nat → Prop
+  | [], _ => True
+  | p :: rest, idx =>
+    ∃ t, idx ≤ t ∧ t ≤ s.length ∧ p.isPrefixOf (s.drop t) = true ∧ Occ s gap rest (t + p.length + gap)
+
+theorem Occ_mono {s : Str} {gap : Nat} {ps : List Str} {idx idx' : Nat}
+    (h : Occ s gap ps idx) (hle : idx' ≤ idx) : Occ s gap ps idx' := by
+  cases ps with
+  | nil => trivial
+  | cons p rest =>
+    obtain ⟨t, h1, h2, h3, h4⟩ := h
+    exact ⟨t, by omega, h2, h3, h4⟩
+
+/-- whatever offsets `find` recovers (possibly earlier than the true ones), the slices taken there
+    are the pieces -/
+theorem pieceOffsets_text (s : Str) (gap : Nat) (ps : List Str) (idx : Nat) (h : Occ s gap ps idx) :
+    (AStr.pieceOffsets s gap ps idx).map (fun ol => (s.take (ol.1 + ol.2)).drop ol.1) = ps := by
+  induction ps generalizing idx with
+  | nil => rfl
+  | cons p rest ih =>
+    obtain ⟨t, h1, h2, h3, h4⟩ := h
+    obtain ⟨j, hf, hj1, hj2, hpj⟩ := find_of_match s p idx t h2 h1 h3
+    simp only [AStr.pieceOffsets, hf, Option.getD_some, List.map_cons]
+    rw [take_drop_occ s p j hpj, ih _ (Occ_mono h4 (by omega))]
+
+/-- the true offsets of pieces laid out with `gap` characters between them -/
+def offsetsFrom (gap : Nat) : List Str → Nat → List (Nat × Nat)
+  | [], _ => []
+  | p :: rest, idx => (idx, p.length) :: offsetsFrom gap rest (idx + p.length + gap)
+
+theorem pieceOffsets_cons (s : Str) (gap : Nat) (p : Str) (rest : List Str) (idx : Nat) :
+    AStr.pieceOffsets s gap (p :: rest) idx =
+      ((Py.find s p idx).getD 0, p.length) ::
+        AStr.pieceOffsets s gap rest ((Py.find s p idx).getD 0 + p.length + gap) := rfl
+
+theorem offsetsFrom_cons (gap : Nat) (p : Str) (rest : List Str) (idx : Nat) :
+    offsetsFrom gap (p :: rest) idx = (idx, p.length) :: offsetsFrom gap rest (idx + p.length + gap) :=
+  rfl
+
+theorem joinSep_cons_ne (sep a : Str) {l : List Str} (h : l ≠ []) :
+    joinSep sep (a :: l) = a ++ sep ++ joinSep sep l := by
+  cases l with
+  | nil => exact absurd rfl h
+  | cons b r => rfl
+
+/-- pieces that join (with `sep`) to the rest of `s` behind `pre`: `find` from the running index
+    recovers exactly the true offsets -/
+theorem join_laid (sep : Str) (ps : List Str) (hps : ps ≠ []) (s pre : Str)
+    (h : s = pre ++ joinSep sep ps) :
+    AStr.pieceOffsets s sep.length ps pre.length = offsetsFrom sep.length ps pre.length ∧
+      Occ s sep.length ps pre.length := by
+  induction ps generalizing pre with
+  | nil => exact absurd rfl hps
+  | cons a l ih =>
+    cases l with
+    | nil =>
+      have hocc : a.isPrefixOf (s.drop pre.length) = true := by
+        rw [h]
+        show a.isPrefixOf ((pre ++ a).drop pre.length) = true
+        rw [List.drop_left]
+        exact List.isPrefixOf_iff_prefix.mpr (List.prefix_refl a)
+      have hlen : pre.length ≤ s.length := by rw [h]; simp
+      refine ⟨?_, pre.length, Nat.le_refl _, hlen, hocc, trivial⟩
+      simp [AStr.pieceOffsets, offsetsFrom, find_at s a pre.length hlen hocc]
+    | cons b r =>
+      have hj : joinSep sep (a :: b :: r) = a ++ sep ++ joinSep sep (b :: r) := rfl
+      rw [hj] at h
+      have hocc : a.isPrefixOf (s.drop pre.length) = true := by
+        rw [h]
+        have := occ_of_decomp pre a (sep ++ joinSep sep (b :: r))
+        simp only [List.append_assoc] at this ⊢
+        exact this
+      have hlen : pre.length ≤ s.length := by rw [h]; simp
+      have hnext : pre.length + a.length + sep.length = (pre ++ a ++ sep).length := by simp; omega
+      obtain ⟨ih1, ih2⟩ := ih (by simp) (pre ++ a ++ sep) (by rw [h]; simp)
+      refine ⟨?_, pre.length, Nat.le_refl _, hlen, hocc, ?_⟩
+      · rw [pieceOffsets_cons, offsetsFrom_cons, find_at s a pre.length hlen hocc,
+          Option.getD_some, hnext, ih1]
+      · rw [hnext]; exact ih2
+
+theorem offsetsFrom_getElem? (gap : Nat) (ps : List Str) (idx k : Nat) :
+    (offsetsFrom gap ps idx)[k]? =
+      ps[k]?.map (fun p => (idx + ((ps.take k).map (fun q => q.length + gap)).sum, p.length)) := by
+  induction ps generalizing idx k with
+  | nil => simp [offsetsFrom]
+  | cons p rest ih =>
+    cases k with
+    | zero => simp [offsetsFrom]
+    | succ k =>
+      simp only [offsetsFrom, List.getElem?_cons_succ, ih, List.take_succ_cons, List.map_cons,
+        List.sum_cons]
+      cases rest[k]? with
+      | none => rfl
+      | some q => simp only [Option.map_some]; congr 2; omega
+
+/-! ## `joinSep` and reversal -/
+
+theorem joinSep_snoc (sep a : Str) {l : List Str} (h : l ≠ []) :
+    joinSep sep (l ++ [a]) = joinSep sep l ++ sep ++ a := by
+  induction l with
+  | nil => exact absurd rfl h
+  | cons b r ih =>
+    cases r with
+    | nil => rfl
+    | cons c r' =>
+      have h1 : joinSep sep (b :: c :: r') = b ++ sep ++ joinSep sep (c :: r') := rfl
+      have h2 : joinSep sep (b :: c :: r' ++ [a]) = b ++ sep ++ joinSep sep (c :: r' ++ [a]) := rfl
+      rw [h1, h2, ih (by simp)]
+      simp
+
+theorem joinSep_reverse (sep : Str) (l : List Str) :
+    (joinSep sep l).reverse = joinSep sep.reverse (l.map List.reverse).reverse := by
+  induction l with
+  | nil => rfl
+  | cons a r ih =>
+    cases r with
+    | nil => rfl
+    | cons b r' =>
+      have h1 : joinSep sep (a :: b :: r') = a ++ sep ++ joinSep sep (b :: r') := rfl
+      rw [h1, List.map_cons, List.reverse_cons, joinSep_snoc _ _ (by simp), ← ih]
+      simp
+
+/-! ## `str.split(sep, maxsplit)` / `rsplit` (the model `Py.splitSep`) -/
+
+theorem splitSepAux_ne (sep : Str) (fuel : Nat) (cur rest : Str) (m : Int) :
+    Py.splitSepAux sep fuel cur rest m ≠ [] := by
+  cases fuel with
+  | zero => simp [Py.splitSepAux]
+  | succ fuel =>
+    cases rest with
+    | nil => simp [Py.splitSepAux]
+    | cons c r =>
+      rw [Py.splitSepAux]
+      split
+      · simp
+      · exact splitSepAux_ne sep fuel _ _ _
+
+theorem splitSepAux_join (sep : Str) (fuel : Nat) (cur rest : Str) (m : Int) :
+    joinSep sep (Py.splitSepAux sep fuel cur rest m) = cur ++ rest := by
+  induction fuel generalizing cur rest m with
+  | zero => simp [Py.splitSepAux, joinSep]
+  | succ fuel ih =>
+    cases rest with
+    | nil => simp [Py.splitSepAux, joinSep]
+    | cons c r =>
+      rw [Py.splitSepAux]
+      split
+      · rename_i hc
+        rw [joinSep_cons_ne _ _ (splitSepAux_ne _ _ _ _ _), ih]
+        obtain ⟨t, ht⟩ := (startsWith_iff _ _).mp hc.2
+        rw [ht]
+        simp
+      · rw [ih]; simp
+
+theorem splitSepAux_length (sep : Str) (fuel : Nat) (cur rest : Str) (m : Int) (hm : 0 ≤ m) :
+    (Py.splitSepAux sep fuel cur rest m).length ≤ m.toNat + 1 := by
+  induction fuel generalizing cur rest m with
+  | zero => simp [Py.splitSepAux]
+  | succ fuel ih =>
+    cases rest with
+    | nil => simp [Py.splitSepAux]
+    | cons c r =>
+      rw [Py.splitSepAux]
+      split
+      · rename_i hc
+        have := ih [] ((c :: r).drop sep.length) (m - 1) (by omega)
+        simp only [List.length_cons]
+        omega
+      · exact ih _ _ _ hm
+
+theorem splitSep_join (s sep : Str) (m : Int) : joinSep sep (Py.splitSep s sep m) = s := by
+  simpa [Py.splitSep] using splitSepAux_join sep (s.length + 1) [] s m
+
+theorem rsplitSep_join (s sep : Str) (m : Int) : joinSep sep (Py.rsplitSep s sep m) = s := by
+  have h := joinSep_reverse sep.reverse (Py.splitSep s.reverse sep.reverse m)
+  rw [splitSep_join, List.reverse_reverse, List.reverse_reverse] at h
+  exact h.symm
+
+theorem splitSep_ne (s sep : Str) (m : Int) : Py.splitSep s sep m ≠ [] :=
+  splitSepAux_ne _ _ _ _ _
+
+theorem rsplitSep_ne (s sep : Str) (m : Int) : Py.rsplitSep s sep m ≠ [] := by
+  unfold Py.rsplitSep
+  intro h
+  have := congrArg List.length h
+  simp only [List.length_reverse, List.length_map, List.length_nil] at this
+  exact splitSep_ne _ _ _ (List.eq_nil_of_length_eq_zero this)
+
+/-! ## pieces that occur in order, separated by arbitrary gaps -/
+
+/-- `InOrder ps u`: `u = g₀ ++ p₀ ++ g₁ ++ p₁ ++ … ++ tail` for some gaps `gᵢ` -/
+inductive InOrder : List Str → Str → Prop
+  | nil (u : Str) : InOrder [] u
+  | cons (g p rest : Str) (ps : List Str) (h : InOrder ps rest) : InOrder (p :: ps) (g ++ p ++ rest)
+
+theorem InOrder.cons' {g p rest u : Str} {ps : List Str} (hu : u = g ++ p ++ rest) (h : InOrder ps rest) :
+    InOrder (p :: ps) u := hu ▸ InOrder.cons g p rest ps h
+
+theorem InOrder.weaken {ps : List Str} {u : Str} (h : InOrder ps u) (g : Str) : InOrder ps (g ++ u) := by
+  cases h with
+  | nil => exact InOrder.nil _
+  | cons g' p rest ps h => exact InOrder.cons' (g := g ++ g') (by simp) h
+
+theorem InOrder.snoc {ps : List Str} {u : Str} (h : InOrder ps u) (g p g' : Str) :
+    InOrder (ps ++ [p]) (u ++ g ++ p ++ g') := by
+  induction h with
+  | nil u => exact InOrder.cons' (g := u ++ g) (rest := g') (by simp) (InOrder.nil _)
+  | cons g₀ q rest ps _ ih => exact InOrder.cons' (g := g₀) (rest := rest ++ g ++ p ++ g') (by simp) ih
+
+theorem InOrder.reverse {ps : List Str} {u : Str} (h : InOrder ps u) :
+    InOrder (ps.map List.reverse).reverse u.reverse := by
+  induction h with
+  | nil u => exact InOrder.nil _
+  | cons g p rest ps _ ih =>
+    have := InOrder.snoc ih [] p.reverse g.reverse
+    simpa using this
+
+theorem InOrder.occ {ps : List Str} {u : Str} (h : InOrder ps u) (s pre : Str) (hs : s = pre ++ u) :
+    Occ s 0 ps pre.length := by
+  induction h generalizing pre with
+  | nil u => trivial
+  | cons g p rest ps _ ih =>
+    refine ⟨(pre ++ g).length, by simp, by rw [hs]; simp, ?_, ?_⟩
+    · rw [hs]
+      have := occ_of_decomp (pre ++ g) p rest
+      simp only [List.append_assoc] at this ⊢
+      exact this
+    · have := ih (pre ++ g ++ p) (by rw [hs]; simp)
+      simpa [Nat.add_assoc] using this
+
+/-- the text theorem for offset recovery with gap 0 -/
+theorem pieceOffsets_sub (s : Str) (ps : List Str) (h : InOrder ps s) :
+    (AStr.pieceOffsets s 0 ps 0).map (fun ol => (s.take (ol.1 + ol.2)).drop ol.1) = ps :=
+  pieceOffsets_text s 0 ps 0 (h.occ s [] rfl)
+
+/-! ## whitespace splitting and `splitlines` produce pieces in order -/
+
+theorem splitWsAux_sub (fuel : Nat) (s : Str) (m : Int) : InOrder (Py.splitWsAux fuel s m) s := by
+  induction fuel generalizing s m with
+  | zero => exact InOrder.nil _
+  | succ fuel ih =>
+    rw [Py.splitWsAux]
+    simp only
+    have h1 := List.takeWhile_append_dropWhile (p := Py.isSpace) (l := s)
+    split
+    · exact InOrder.nil _
+    · split
+      · exact InOrder.cons' (g := s.takeWhile Py.isSpace) (rest := []) (by simp [h1]) (InOrder.nil _)
+      · have h2 := List.takeWhile_append_dropWhile (p := fun c => !Py.isSpace c)
+          (l := s.dropWhile Py.isSpace)
+        rw [drop_takeWhile_length]
+        refine InOrder.cons' (g := s.takeWhile Py.isSpace) ?_ (ih _ _)
+        rw [List.append_assoc, h2, h1]
+
+theorem splitWs_sub (s : Str) (m : Int) : InOrder (Py.splitWs s m) s := splitWsAux_sub _ _ _
+
+theorem rsplitWs_sub (s : Str) (m : Int) : InOrder (Py.rsplitWs s m) s := by
+  have := (splitWs_sub s.reverse m).reverse
+  rwa [List.reverse_reverse] at this
+
+theorem splitlinesAux_sub (keep : Bool) (s cur : Str) :
+    InOrder (Py.splitlinesAux keep s cur) (cur ++ s) := by
+  fun_induction Py.splitlinesAux keep s cur with
+  | case1 cur _ => exact InOrder.nil _
+  | case2 cur _ => exact InOrder.cons' (g := []) (rest := []) (by simp) (InOrder.nil _)
+  | case3 rest cur ih =>
+    simp only [List.nil_append] at ih
+    cases keep
+    · exact InOrder.cons' (g := []) (rest := '\r' :: '\n' :: rest) (by simp) (ih.weaken ['\r', '\n'])
+    · exact InOrder.cons' (g := []) (rest := rest) (by simp) ih
+  | case4 c rest cur hnot hbr ih =>
+    simp only [List.nil_append] at ih
+    cases keep
+    · exact InOrder.cons' (g := []) (rest := c :: rest) (by simp) (ih.weaken [c])
+    · exact InOrder.cons' (g := []) (rest := rest) (by simp) ih
+  | case5 c rest cur hnot hbr ih =>
+    simpa using ih
+
+theorem splitlines_sub (s : Str) (keep : Bool) : InOrder (Py.splitlines s keep) s := by
+  simpa [Py.splitlines] using splitlinesAux_sub keep s []
+
 end SL
